@@ -169,6 +169,7 @@ pub fn c03_strategy() -> BoxedStrategy<Case> {
         delete_sub: 0,
         create_topic: 0,
         delete_topic: 0,
+        big_payload: 3,
         max_msgs: vec![1, 2, 3],
         ..W::default()
     };
@@ -311,8 +312,11 @@ pub fn c07_strategy() -> BoxedStrategy<Case> {
         stream_send: 3,
         tick: 5,
         settle: 1,
-        advance: 1,
+        advance: 2,
         pull_all: 0,
+        // wake-ups that leave a waiting Pull empty-handed, minutes into its wait
+        empty_publish: 2,
+        adv_ms: vec![1, 100, 5_000, 10_200, 30_000, 240_000, 240_000],
         ..W::default()
     };
     arb_case(w, 1..=2, 1..=2, 3..14, 3)
@@ -349,6 +353,7 @@ pub fn c08_strategy() -> BoxedStrategy<Case> {
 
 pub fn c09_strategy() -> BoxedStrategy<Case> {
     let w = W {
+        np: 2,
         nt: 2,
         ns: 3,
         p_async: 0.05,
@@ -610,8 +615,11 @@ pub fn c15_strategy(big: bool) -> BoxedStrategy<Case> {
         3 => (1u8..4).prop_map(move |n| Op::Publish { t: t0, n, payload: Payload::plain(), a: false }),
         2 => prop_oneof![Just(999u32), Just(1000), Just(1001), Just(2500)].prop_map(move |n| Op::PublishMany { t: t0, n, a: false }),
         2 => Just(Op::Settle),
-        1 => prop_oneof![Just(10_200u64), Just(300_000), Just(299_000)].prop_map(|ms| Op::Advance { ms }),
+        1 => prop_oneof![Just(10_200u64), Just(300_000), Just(299_000), Just(240_000)].prop_map(|ms| Op::Advance { ms }),
         1 => vec(arb_ref(0), 1..3).prop_map(move |refs| Op::Modify { s: s0, refs, secs: 0, a: false }),
+        // a waiting Pull that is given up by its caller, and a wake-up that brings nothing
+        1 => (0u8..3).prop_map(|c| Op::Abort { c }),
+        1 => Just(Op::Publish { t: t0, n: 0, payload: Payload::plain(), a: false }),
     ];
     (any::<u64>(), backlog, vec(step, 2..10))
         .prop_map(move |(sched_seed, backlog, body)| {
@@ -835,6 +843,10 @@ pub fn run_worker(ctx: &WorkerCtx) -> WorkerOut {
         "C07" => {
             let nt = |_: &Case, r: &Report| r.feat.max_in_flight > 16 && (r.feat.publishes_ok > 0 || r.feat.overlapping_control_on_name || r.feat.create_delete_overlapping_publish);
             run_sim_stage(ctx, SimStage { name: "storms", strategy: c07_strategy(), cfg: sim_cfg(false), cases: ctx.share(scale(t, 24_000, 200_000)), nontrivial: &nt, classes: &std_classes, extra: None }, &mut out);
+            // requests in parallel on real threads (blocking locks, push loop ticking)
+            if out.failure.is_none() {
+                crate::push::mt_storm_check(ctx, &mut out, scale(t, 12, 200));
+            }
         }
         "C08" => {
             let nt = |_: &Case, r: &Report| r.feat.overlapping_publishes && r.feat.subs_with_first_deliveries >= 2;
@@ -863,6 +875,10 @@ pub fn run_worker(ctx: &WorkerCtx) -> WorkerOut {
             let nt = |_: &Case, r: &Report| r.feat.delete_with_open_stream_or_blocked_pull;
             run_sim_stage(ctx, SimStage { name: "release", strategy: c12_strategy(), cfg: sim_cfg(false), cases: ctx.share(scale(t, 36_000, 400_000)), nontrivial: &nt, classes: &std_classes, extra: None }, &mut out);
             run_sim_stage(ctx, SimStage { name: "name_races", strategy: control_race_strategy(), cfg: sim_cfg(false), cases: ctx.share(scale(t, 12_000, 120_000)), nontrivial: &nt, classes: &std_classes, extra: None }, &mut out);
+            // the same on real threads: idle streams and request loops on a subscription that is deleted
+            if out.failure.is_none() {
+                crate::push::mt_delete_check(ctx, &mut out, scale(t, 300, 6_000) as usize);
+            }
         }
         "C13" => {
             crate::pure::paging_pure(ctx, &mut out);
@@ -941,6 +957,8 @@ pub fn replay_input(prop: &str, input: &serde_json::Value) -> Result<Vec<Violati
         "pure_names" => Ok(crate::pure::replay_names(input)),
         "c16" => crate::c16::replay_c16(input),
         "push" => crate::push::replay_push(input),
+        "mt_storm" => crate::push::replay_mt_storm(input),
+        "mt_delete_storm" => crate::push::replay_mt_delete(input),
         "flow_explorer" | "flow_stress" => crate::flow::replay_flow(input),
         other => Err(format!("unknown engine {}", other)),
     }
